@@ -115,7 +115,7 @@ def lv_min(a, b):
     return (min(a[0], b[0]), a[1] + b[1])
 
 
-def lex_template(parts, odata=False):
+def lex_template(parts, odata=False, sql=True):
     """parts: list of str | Hole  ->  (tokens, problems).  Quote handling: a quote character in constant text
     opens a literal that ends at the next quote character in constant text (doubled quotes inside constant
     text stay inside); holes between them are the literal's data."""
@@ -130,6 +130,20 @@ def lex_template(parts, odata=False):
         else:
             stream.append(p)
     n = len(stream)
+    # a sign directly in front of a spliced text (no blank, no parenthesis): the two may fuse into another token -- `--` opens
+    # a comment in SQL, `-2018-01-01` / `-1` is lexed as a signed number by the OData lexer.  Side condition on the hole's
+    # first character (`adj`), and what the template itself starts with (`lead`), both decided by the caller.
+    info = {"adj": [], "lead": None}
+    if n:
+        info["lead"] = ("hole", stream[0]) if isinstance(stream[0], Hole) else ("const", stream[0])
+    in_quote = None
+    for k in range(n):
+        ch = stream[k]
+        if isinstance(ch, str) and ch in "'\"":
+            in_quote = None if in_quote == ch else (ch if in_quote is None else in_quote)
+        elif isinstance(ch, Hole) and in_quote is None and k > 0 and stream[k - 1] == "-":
+            info["adj"].append((ch, "-"))
+    lex_template.last_info = info
     while i < n:
         c = stream[i]
         if isinstance(c, Hole):
@@ -179,6 +193,8 @@ def lex_template(parts, odata=False):
             buf.append(stream[j])
             j += 1
         text = "".join(buf)
+        if sql and ("--" in text or "/*" in text):
+            problems.append("SQL comment opener in the text (the rest of the clause is not read)")
         pos = 0
         while pos < len(text):
             m = _SQL_TOKEN.match(text, pos)
@@ -475,13 +491,14 @@ class Parser:
 
 
 def read(dialect, parts, odata=False):
-    toks, problems = lex_template(parts, odata=odata)
+    toks, problems = lex_template(parts, odata=odata, sql=(dialect.name != "odata"))
+    info = lex_template.last_info
     p = Parser(dialect, toks)
     if not toks:
         return {"tree": ("empty",), "lvlL": LV(), "lvlR": LV(), "problems": problems + ["empty text"], "side": [],
-                "data": [], "used": []}
+                "data": [], "used": [], "adj": [], "lead": None}
     tree, lL, lR = p.expr(0)
     if p.i < len(toks):
         p.problems.append(f"trailing text after expression: {toks[p.i].kind} {toks[p.i].text!r}")
     return {"tree": tree, "lvlL": lL, "lvlR": lR, "problems": problems + p.problems, "side": p.side, "data": p.data,
-            "used": p.used}
+            "used": p.used, "adj": info["adj"], "lead": info["lead"]}
